@@ -18,16 +18,25 @@ def sendsOf (os : List Out) : List (Nat × Remote × Wire) :=
     | .send t r w => some (t, r, w)
     | _ => none
 
+/-- the message ID of the not yet acknowledged CON request on `(remote, token)`, if any -/
+def pendingMid (s : State) (remote : Remote) (token : Token) : Option Nat :=
+  (s.piggy.find? (fun p => p.remote == remote && p.token == token)).map (·.mid)
+
 /-- RFC 7252 §4: the message-level reply to an incoming (non-duplicate) message.
 `matched` = the token manager knows a request this response answers;
-`mcLocal` = it was received on a multicast address. -/
-def expectedReply (w : Wire) (matched mcLocal : Bool) : Option Wire :=
+`mcLocal` = it was received on a multicast address;
+`superseded` = the message ID of an earlier confirmable request on the same token from the same
+endpoint that is still waiting for its acknowledgement (`pendingMid`). -/
+def expectedReply (w : Wire) (matched mcLocal : Bool) (superseded : Option Nat) : Option Wire :=
   if w.code = 0 then
     (if w.mtype = .con then some (bare .rst w.mid) else none)       -- ping → RST; rest ignored
   else if isResponse w.code ∧ w.mtype = .con then
     (if matched then some (bare .ack w.mid)                          -- matched CON response → ACK
      else if mcLocal then none else some (bare .rst w.mid))          -- unmatched → RST unless multicast
-  else none                                                          -- requests, NON/ACK responses, misfits
+  else if isRequest w.code ∧ (w.mtype = .con ∨ w.mtype = .non) then
+    superseded.map (bare .ack)                                       -- a request: answered later; the
+                                                                     -- request it replaces is ACKed now
+  else none                                                          -- NON/ACK responses, misfits
 
 theorem sendsOf_append (a b : List Out) : sendsOf (a ++ b) = sendsOf a ++ sendsOf b := by
   simp [sendsOf, List.filterMap_append]
@@ -42,11 +51,33 @@ theorem sendsOf_processResponse (s : State) (remote : Remote) (w : Wire) :
   simp only
   split <;> simp [sendsOf]
 
-theorem sendsOf_processRequest (s : State) (remote : Remote) (w : Wire) :
-    sendsOf (processRequest s remote w).2 = [] := by
-  unfold processRequest tokenProcessRequest
+theorem sendsOf_tokenProcessRequest (s : State) (remote : Remote) (w : Wire) :
+    sendsOf (tokenProcessRequest s remote w).2 = [] := by
+  unfold tokenProcessRequest
   simp only
-  split <;> split <;> simp [sendsOf]
+  split <;> simp [sendsOf]
+
+theorem sendsOf_fireEmptyAck (s : State) (remote : Remote) (token : Token) :
+    sendsOf (fireEmptyAck s remote token).2 =
+      match pendingMid s remote token with
+      | some mid => [(s.now, remote, bare .ack mid)]
+      | none => [] := by
+  unfold fireEmptyAck pendingMid
+  split
+  · rename_i h; simp [h, sendsOf]
+  · rename_i p h
+    simp only [h, Option.map_some]
+    simpa [dropPiggy] using sendsOf_sendBare (dropPiggy s remote token) remote .ack p.mid
+
+/-- what `_process_request` sends: the empty ACK of the request it supersedes, nothing else -/
+theorem sendsOf_processRequest (s : State) (remote : Remote) (w : Wire) :
+    sendsOf (processRequest s remote w).2 =
+      match pendingMid s remote w.token with
+      | some mid => [(s.now, remote, bare .ack mid)]
+      | none => [] := by
+  unfold processRequest
+  simp only [sendsOf_append, sendsOf_tokenProcessRequest, List.append_nil]
+  exact sendsOf_fireEmptyAck s remote w.token
 
 theorem processResponse_now (s : State) (remote : Remote) (w : Wire) :
     (processResponse s remote w).1.now = s.now := by
@@ -59,12 +90,14 @@ theorem processResponse_now (s : State) (remote : Remote) (w : Wire) :
 /-- **C10 (reaction table).** For every state and every incoming message, the datagrams sent in
 reaction by the type/code table are exactly what RFC 7252 §4 prescribes: an empty CON (ping) gets
 a RST with its id; a confirmable response gets an empty ACK if it matches a pending request and
-otherwise a RST — unless it arrived on a multicast address; everything else (requests — answered
-later —, NON and ACK responses matched or not, empty NON/ACK/RST, RST-typed responses, codes of
-the reserved and signalling classes) gets no message-level reply. -/
+otherwise a RST — unless it arrived on a multicast address; a request gets no message-level reply
+yet (it is answered later) — but if it supersedes an earlier confirmable request on its token that
+is still unacknowledged, that one gets its empty ACK now; everything else (NON and ACK responses
+matched or not, empty NON/ACK/RST, RST-typed responses, request codes on ACK/RST, codes of the
+reserved and signalling classes) gets no message-level reply. -/
 theorem C10_table (s : State) (remote : Remote) (mcLocal : Bool) (w : Wire) :
     sendsOf (recvCode s remote mcLocal w).2 =
-      match expectedReply w (processResponse s remote w).2.2 mcLocal with
+      match expectedReply w (processResponse s remote w).2.2 mcLocal (pendingMid s remote w.token) with
       | some r => [(s.now, remote, r)]
       | none => [] := by
   unfold recvCode expectedReply
@@ -84,8 +117,15 @@ theorem C10_table (s : State) (remote : Remote) (mcLocal : Bool) (w : Wire) :
     · have hnr : isResponse w.code = false := by
         simp only [isRequest, isResponse, Bool.and_eq_true, decide_eq_true_eq] at hreq ⊢
         simp; omega
-      simp [hreq, sendsOf_processRequest, hnr]
-    · simp only [hreq, Bool.false_eq_true, ↓reduceIte]
+      have hreq' : isRequest w.code = true ∧ (w.mtype = .con ∨ w.mtype = .non) := by
+        simpa using hreq
+      have hnc : ¬ (isResponse w.code = true ∧ w.mtype = .con) := by simp [hnr]
+      rw [if_pos hreq, sendsOf_processRequest, if_neg hnc, if_pos hreq']
+      cases pendingMid s remote w.token <;> rfl
+    · have hreq' : ¬ (isRequest w.code = true ∧ (w.mtype = .con ∨ w.mtype = .non)) := by
+        simpa using hreq
+      rw [if_neg hreq']
+      simp only [hreq, Bool.false_eq_true, ↓reduceIte]
       by_cases hresp : (isResponse w.code && (w.mtype == .con || w.mtype == .non || w.mtype == .ack)) = true
       · simp only [hresp, ↓reduceIte]
         have hir : isResponse w.code = true := by simp only [Bool.and_eq_true] at hresp; exact hresp.1
@@ -104,10 +144,8 @@ theorem C10_table (s : State) (remote : Remote) (mcLocal : Bool) (w : Wire) :
           intro ⟨h1, h2⟩; simp [h1, h2] at hresp
         simp [this, sendsOf]
 
-/-- **C10 (misfits are ignored).** A message whose code and type do not fit — a request or
-response code of the reserved/signalling classes, a request typed ACK/RST, a response typed RST,
-an empty NON — changes nothing and produces nothing. -/
-theorem C10_misfits_ignored (s : State) (remote : Remote) (mcLocal : Bool) (w : Wire)
+/-- the type/code table does nothing for a misfit -/
+theorem recvCode_misfit (s : State) (remote : Remote) (mcLocal : Bool) (w : Wire)
     (h1 : ¬ (w.code = 0 ∧ w.mtype ≠ .non))
     (h2 : ¬ (isRequest w.code = true ∧ (w.mtype = .con ∨ w.mtype = .non)))
     (h3 : ¬ (isResponse w.code = true ∧ w.mtype ≠ .rst)) :
@@ -133,30 +171,92 @@ theorem C10_misfits_ignored (s : State) (remote : Remote) (mcLocal : Bool) (w : 
       exact absurd ⟨hc.1, by rcases hc.2 with (h | h) | h <;> simp [h]⟩ h3
   simp [e1, e2, e3, e4]
 
+/-- **C10 (misfits are ignored).** A message whose code and type do not fit — a code of the
+reserved/signalling classes, a request code on an ACK or RST, a response code on a RST, an empty
+NON — changes nothing and produces nothing, whatever the state: it is not entered into the
+duplicate table, it ends no exchange even when it carries the message ID of one (so it neither
+stops a retransmission nor fails a request), and it is not passed on.  This is the whole of
+`dispatch_message` (`recv`), not only its type/code table. -/
+theorem C10_misfits_ignored (s : State) (remote : Remote) (mcLocal : Bool) (w : Wire)
+    (h1 : ¬ (w.code = 0 ∧ w.mtype ≠ .non))
+    (h2 : ¬ (isRequest w.code = true ∧ (w.mtype = .con ∨ w.mtype = .non)))
+    (h3 : ¬ (isResponse w.code = true ∧ w.mtype ≠ .rst)) :
+    recv s remote mcLocal w = (s, []) := by
+  have hd : dedupable w = false := by
+    cases hc : dedupable w
+    · rfl
+    · simp only [dedupable, Bool.and_eq_true, beq_iff_eq, Bool.or_eq_true] at hc; exact absurd hc h2
+  have hf : fitsReply w = false := by
+    cases hc : fitsReply w
+    · rfl
+    · simp only [fitsReply, Bool.or_eq_true, Bool.and_eq_true, beq_iff_eq] at hc
+      rcases hc with ⟨ht, h0⟩ | ⟨ht, hr⟩
+      · exact absurd ⟨h0, by rcases ht with h | h <;> simp [h]⟩ h1
+      · exact absurd ⟨hr, by simp [ht]⟩ h3
+  simp only [recv, isDup, hd, Bool.false_and, Bool.false_eq_true, ↓reduceIte, hf, List.nil_append]
+  exact recvCode_misfit s remote mcLocal w h1 h2 h3
+
 
 -- requests: acknowledged exactly once ---------------------------------------------------------
 
 def piggyCount (s : State) (remote : Remote) (token : Token) : Nat :=
   (s.piggy.filter (fun p => p.remote == remote && p.token == token)).length
 
-/-- **C10 (a CON request opens exactly one ACK opportunity).** Processing a confirmable request
-delivers it and leaves exactly one pending opportunity for (remote, token): the request's message
-id, to be used within `EMPTY_ACK_DELAY`; nothing is sent yet.  A NON request opens none. -/
+theorem fireEmptyAck_piggy_eq (s : State) (remote : Remote) (token : Token) :
+    (fireEmptyAck s remote token).1.piggy =
+      s.piggy.filter (fun p => !(p.remote == remote && p.token == token)) := by
+  unfold fireEmptyAck
+  split
+  · rename_i hn
+    symm
+    rw [List.filter_eq_self]
+    intro x hx
+    have := List.find?_eq_none.mp hn x hx
+    cases hb : (x.remote == remote && x.token == token)
+    · rfl
+    · rw [hb] at this; exact absurd rfl this
+  · simp [sendBare, sendInitially, storeReply, dropPiggy]
+
+theorem fireEmptyAck_now (s : State) (remote : Remote) (token : Token) :
+    (fireEmptyAck s remote token).1.now = s.now ∧ (fireEmptyAck s remote token).1.cfg = s.cfg := by
+  unfold fireEmptyAck
+  split
+  · exact ⟨rfl, rfl⟩
+  · simp [sendBare, sendInitially, storeReply, dropPiggy]
+
+theorem tokenProcessRequest_piggy (s : State) (remote : Remote) (w : Wire) :
+    (tokenProcessRequest s remote w).1.piggy = s.piggy := by
+  unfold tokenProcessRequest
+  simp only
+  split <;> rfl
+
+/-- **C10 (a CON request opens exactly one ACK opportunity; a superseded one is acknowledged).**
+Processing a request sends nothing but the empty ACK — under the *old* message ID — of an earlier
+confirmable request on the same token that was still waiting for its acknowledgement
+(`pendingMid`); a confirmable request then leaves exactly one pending opportunity for
+(remote, token): its own message id, to be used within `EMPTY_ACK_DELAY`.  A NON request opens
+none, and leaves none behind under its token: its response cannot leave as somebody else's ACK. -/
 theorem C10_request_opportunity (s : State) (remote : Remote) (w : Wire) :
-    sendsOf (processRequest s remote w).2 = [] ∧
+    sendsOf (processRequest s remote w).2 =
+      (match pendingMid s remote w.token with
+       | some mid => [(s.now, remote, bare .ack mid)]
+       | none => []) ∧
     (w.mtype = .con →
       piggyCount (processRequest s remote w).1 remote w.token = 1 ∧
       (processRequest s remote w).1.piggy.find? (fun p => p.remote == remote && p.token == w.token)
         = some ⟨remote, w.token, w.mid, s.now + s.cfg.emptyAckDelay⟩) ∧
-    (w.mtype ≠ .con → (processRequest s remote w).1.piggy = s.piggy) := by
+    (w.mtype ≠ .con →
+      (processRequest s remote w).1.piggy =
+        s.piggy.filter (fun p => !(p.remote == remote && p.token == w.token)) ∧
+      piggyCount (processRequest s remote w).1 remote w.token = 0) := by
   refine ⟨sendsOf_processRequest s remote w, ?_, ?_⟩
   · intro hc
     have hp : (processRequest s remote w).1.piggy =
         s.piggy.filter (fun p => !(p.remote == remote && p.token == w.token)) ++
           [⟨remote, w.token, w.mid, s.now + s.cfg.emptyAckDelay⟩] := by
-      unfold processRequest tokenProcessRequest
-      simp only [hc, beq_self_eq_true, ↓reduceIte]
-      split <;> rfl
+      unfold processRequest
+      simp only [hc, beq_self_eq_true, ↓reduceIte, tokenProcessRequest_piggy, fireEmptyAck_piggy_eq,
+        (fireEmptyAck_now s remote w.token).1, (fireEmptyAck_now s remote w.token).2]
     rw [piggyCount, hp]
     constructor
     · rw [List.filter_append, List.filter_filter]
@@ -172,9 +272,13 @@ theorem C10_request_opportunity (s : State) (remote : Remote) (w : Wire) :
       simp [List.find?_cons]
   · intro hc
     have : (w.mtype == MType.con) = false := by simpa using hc
-    unfold processRequest tokenProcessRequest
-    simp only [this, Bool.false_eq_true, ↓reduceIte]
-    split <;> rfl
+    have hp : (processRequest s remote w).1.piggy =
+        s.piggy.filter (fun p => !(p.remote == remote && p.token == w.token)) := by
+      unfold processRequest
+      simp only [this, Bool.false_eq_true, ↓reduceIte, tokenProcessRequest_piggy, fireEmptyAck_piggy_eq]
+    refine ⟨hp, ?_⟩
+    rw [piggyCount, hp, List.filter_filter]
+    simp
 
 theorem findPiggy_dropPiggy (s : State) (remote : Remote) (token : Token) (m : OutMsg) :
     findPiggy (dropPiggy s remote token) remote token m = none := by
